@@ -318,20 +318,13 @@ theorem sampleArea_16 (st : St) (hb : st.bits = 16) (pre s post : Bytes) (n : Na
   have hgt : ¬ ((pre.length : Int) + (n : Int) * 2 > ((pre ++ (s ++ post)).length : Int)) := by
     simp only [List.length_append]; omega
   have hneg : ¬ ((n : Int) < 0) := by omega
-  simp only [sampleArea, hb, h8, if_true, if_false, hgt, hneg, Int.toNat_natCast]
+  simp only [sampleArea, hb, if_true, if_false, hgt, hneg, Int.toNat_natCast]
   exact swapLoop_spec n pre s post hs _ 0 (by simp)
 
 /-! ### parsing an encoded resource -/
 
 theorem cmdNumber_range (b : Bool) : 32768 ≤ cmdNumber b ∧ cmdNumber b < 65536 := by
   cases b <;> simp [cmdNumber]
-
-theorem encPrefix_length (f : Format)
-    (hv : match f with | .fmt1 dts => dts.length < 32768 ∧ ∀ b ∈ dts, b.length = 6 | .fmt2 rc => rc.length = 2) :
-    (encPrefix f).length = match f with | .fmt1 dts => 4 + 6 * dts.length | .fmt2 _ => 4 := by
-  cases f with
-  | fmt1 dts => simp [encPrefix, be16, flatten_length_const dts 6 hv.2]
-  | fmt2 rc => simp [encPrefix, be16, hv]
 
 theorem nulls_flatten_length (nulls : List Bytes) (hn : ∀ b ∈ nulls, b.length = 6) :
     ((nulls.map encNull).flatten).length = 8 * nulls.length := by
@@ -349,78 +342,275 @@ theorem encCommands_length (s : Snd) (hn : ∀ b ∈ s.nulls, b.length = 6) (hp 
 theorem parse_encode (s : Snd) (hv : Valid s) :
     ∃ f cs p1v, parseSndFmt (encode s) = .ok f ∧
       f.commands = cs ++ [⟨(cmdNumber s.soundCmd : Int), p1v, (headerOffset s : Int)⟩] ∧ ∀ c ∈ cs, c.command = 0 := by
+  obtain ⟨format, nulls, sc, p1, rate, frac, loops, header, samples, trailing⟩ := s
   obtain ⟨hfmt, hnn, hnl, hp1, _hr, _hfr, _hlo, _hh⟩ := hv
-  have hpl := encPrefix_length s.format hfmt
-  have hoff : headerOffset s < 2 ^ 31 := by
-    unfold headerOffset; rw [hpl]
-    cases hf : s.format with
-    | fmt1 dts => rw [hf] at hfmt; simp only; omega
-    | fmt2 rc => simp only; omega
+  simp only at hfmt hnn hnl hp1
+  generalize hS : (⟨format, nulls, sc, p1, rate, frac, loops, header, samples, trailing⟩ : Snd) = s
+  have hsn : s.nulls = nulls := by rw [← hS]
+  have hsf : s.format = format := by rw [← hS]
+  have hsc : s.soundCmd = sc := by rw [← hS]
+  have hsp : s.param1 = p1 := by rw [← hS]
+  rw [hsc]
   generalize hpost : encSoundHeader s ++ s.samples ++ s.trailing = post
-  have hcmdr := cmdNumber_range s.soundCmd
-  cases hf : s.format with
+  have hcmdr := cmdNumber_range sc
+  cases format with
   | fmt2 rc =>
-    rw [hf] at hfmt hpl
-    simp only at hfmt hpl
-    have hd : encode s = (be16 2 ++ rc ++ be16 (s.nulls.length + 1)) ++
-        ((s.nulls.map encNull).flatten ++ (be16 (cmdNumber s.soundCmd) ++ s.param1 ++ be32 (headerOffset s) ++ post)) := by
-      simp [encode, encCommands, encPrefix, hf, ← hpost, List.append_assoc]
-    obtain ⟨cs, p1v, hcs, hall⟩ := parseCmds_nulls s.nulls hnl (be16 2 ++ rc ++ be16 (s.nulls.length + 1)) post
-      (cmdNumber s.soundCmd) (headerOffset s) s.param1 hcmdr hp1 hoff
+    have hrc : rc.length = 2 := hfmt
+    have hoff : headerOffset s < 2 ^ 31 := by
+      simp [headerOffset, hsf, hsn, encPrefix, be16, hrc]; omega
+    have hd : encode s = (be16 2 ++ rc ++ be16 (nulls.length + 1)) ++
+        ((nulls.map encNull).flatten ++ (be16 (cmdNumber sc) ++ p1 ++ be32 (headerOffset s) ++ post)) := by
+      simp [encode, encCommands, encPrefix, hsf, hsn, hsc, hsp, ← hpost, List.append_assoc]
+    obtain ⟨cs, p1v, hcs, hall⟩ := parseCmds_nulls nulls hnl (be16 2 ++ rc ++ be16 (nulls.length + 1)) post
+      (cmdNumber sc) (headerOffset s) p1 hcmdr hp1 hoff
     rw [← hd] at hcs
-    have hl : (be16 2 ++ rc ++ be16 (s.nulls.length + 1)).length = 6 := by simp [be16, hfmt]
+    have hl : (be16 2 ++ rc ++ be16 (nulls.length + 1)).length = 6 := by simp [be16, hrc]
     rw [hl] at hcs
     have h0 : getS .be 2 (encode s) 0 = .ok 2 := by
-      have e : encode s = [] ++ (be16 2 ++ (rc ++ be16 (s.nulls.length + 1) ++
-          ((s.nulls.map encNull).flatten ++ (be16 (cmdNumber s.soundCmd) ++ s.param1 ++ be32 (headerOffset s) ++ post)))) := by
+      have e : encode s = [] ++ (be16 2 ++ (rc ++ be16 (nulls.length + 1) ++
+          ((nulls.map encNull).flatten ++ (be16 (cmdNumber sc) ++ p1 ++ be32 (headerOffset s) ++ post)))) := by
         rw [hd]; simp [List.append_assoc]
       rw [e, getS_at .be 2 [] _ _ 0 rfl (by simp [be16])]
       first | done | exact unpackS_small .be 2 2 (by decide) (by decide)
     have hlen : 6 ≤ (encode s).length := by rw [hd]; simp only [List.length_append, hl]; omega
     obtain ⟨rcv, h2⟩ := getS_ok_of_le .be 2 (encode s) 2 (by omega)
-    have h4 : getS .be 2 (encode s) 4 = .ok ((s.nulls.length + 1 : Nat) : Int) := by
-      have e : encode s = (be16 2 ++ rc) ++ (be16 (s.nulls.length + 1) ++
-          ((s.nulls.map encNull).flatten ++ (be16 (cmdNumber s.soundCmd) ++ s.param1 ++ be32 (headerOffset s) ++ post))) := by
+    have h4 : getS .be 2 (encode s) 4 = .ok ((nulls.length + 1 : Nat) : Int) := by
+      have e : encode s = (be16 2 ++ rc) ++ (be16 (nulls.length + 1) ++
+          ((nulls.map encNull).flatten ++ (be16 (cmdNumber sc) ++ p1 ++ be32 (headerOffset s) ++ post))) := by
         rw [hd]; simp [List.append_assoc]
-      rw [e, getS_at .be 2 _ _ _ 4 (by simp [be16, hfmt]) (by simp [be16])]
+      rw [e, getS_at .be 2 _ _ _ 4 (by simp [be16, hrc]) (by simp [be16])]
       exact unpackS_small .be 2 _ (by decide) (by simpa using hnn)
     refine ⟨⟨2, [], rcv, _⟩, cs, p1v, ?_, rfl, hall⟩
     simp only [parseSndFmt, h0, bind, Except.bind, parseSndFmt2, h2, parseSndCommands, h4, Int.toNat_natCast]
     simp only [show ((2 : Int) = 1) = False from by simp, if_false, if_true, hcs]
   | fmt1 dts =>
-    rw [hf] at hfmt hpl
-    simp only at hfmt hpl
+    have hdl : dts.length < 32768 := hfmt.1
     have hfl := flatten_length_const dts 6 hfmt.2
-    have hd : encode s = (be16 1 ++ be16 dts.length ++ dts.flatten ++ be16 (s.nulls.length + 1)) ++
-        ((s.nulls.map encNull).flatten ++ (be16 (cmdNumber s.soundCmd) ++ s.param1 ++ be32 (headerOffset s) ++ post)) := by
-      simp [encode, encCommands, encPrefix, hf, ← hpost, List.append_assoc]
-    obtain ⟨cs, p1v, hcs, hall⟩ := parseCmds_nulls s.nulls hnl (be16 1 ++ be16 dts.length ++ dts.flatten ++ be16 (s.nulls.length + 1)) post
-      (cmdNumber s.soundCmd) (headerOffset s) s.param1 hcmdr hp1 hoff
+    have hoff : headerOffset s < 2 ^ 31 := by
+      simp [headerOffset, hsf, hsn, encPrefix, be16, hfl]; omega
+    have hd : encode s = (be16 1 ++ be16 dts.length ++ dts.flatten ++ be16 (nulls.length + 1)) ++
+        ((nulls.map encNull).flatten ++ (be16 (cmdNumber sc) ++ p1 ++ be32 (headerOffset s) ++ post)) := by
+      simp [encode, encCommands, encPrefix, hsf, hsn, hsc, hsp, ← hpost, List.append_assoc]
+    obtain ⟨cs, p1v, hcs, hall⟩ := parseCmds_nulls nulls hnl (be16 1 ++ be16 dts.length ++ dts.flatten ++ be16 (nulls.length + 1)) post
+      (cmdNumber sc) (headerOffset s) p1 hcmdr hp1 hoff
     rw [← hd] at hcs
-    have hl : (be16 1 ++ be16 dts.length ++ dts.flatten ++ be16 (s.nulls.length + 1)).length = 4 + 6 * dts.length + 2 := by
+    have hl : (be16 1 ++ be16 dts.length ++ dts.flatten ++ be16 (nulls.length + 1)).length = 4 + 6 * dts.length + 2 := by
       simp [be16, hfl]; omega
     rw [hl] at hcs
     have h0 : getS .be 2 (encode s) 0 = .ok 1 := by
-      have e : encode s = [] ++ (be16 1 ++ (be16 dts.length ++ dts.flatten ++ be16 (s.nulls.length + 1) ++
-          ((s.nulls.map encNull).flatten ++ (be16 (cmdNumber s.soundCmd) ++ s.param1 ++ be32 (headerOffset s) ++ post)))) := by
+      have e : encode s = [] ++ (be16 1 ++ (be16 dts.length ++ dts.flatten ++ be16 (nulls.length + 1) ++
+          ((nulls.map encNull).flatten ++ (be16 (cmdNumber sc) ++ p1 ++ be32 (headerOffset s) ++ post)))) := by
         rw [hd]; simp [List.append_assoc]
       rw [e, getS_at .be 2 [] _ _ 0 rfl (by simp [be16])]
       first | done | exact unpackS_small .be 2 1 (by decide) (by decide)
     have h2 : getS .be 2 (encode s) 2 = .ok (dts.length : Int) := by
-      have e : encode s = be16 1 ++ (be16 dts.length ++ (dts.flatten ++ be16 (s.nulls.length + 1) ++
-          ((s.nulls.map encNull).flatten ++ (be16 (cmdNumber s.soundCmd) ++ s.param1 ++ be32 (headerOffset s) ++ post)))) := by
+      have e : encode s = be16 1 ++ (be16 dts.length ++ (dts.flatten ++ be16 (nulls.length + 1) ++
+          ((nulls.map encNull).flatten ++ (be16 (cmdNumber sc) ++ p1 ++ be32 (headerOffset s) ++ post)))) := by
         rw [hd]; simp [List.append_assoc]
       rw [e, getS_at .be 2 _ _ _ 2 (by simp [be16]) (by simp [be16])]
-      exact unpackS_small .be 2 _ (by decide) (by simpa using hfmt.1)
-    have hlen : 4 + 6 * dts.length + 2 ≤ (encode s).length := by rw [hd]; simp only [List.length_append, hl] at hl ⊢; omega
+      exact unpackS_small .be 2 _ (by decide) (by simpa using hdl)
+    have hlen : 4 + 6 * dts.length + 2 ≤ (encode s).length := by rw [hd]; simp only [List.length_append] at hl ⊢; omega
     obtain ⟨l, hdt⟩ := parseDataTypes_ok (encode s) dts.length 4 (by omega)
-    have h4 : getS .be 2 (encode s) (4 + 6 * dts.length) = .ok ((s.nulls.length + 1 : Nat) : Int) := by
-      have e : encode s = (be16 1 ++ be16 dts.length ++ dts.flatten) ++ (be16 (s.nulls.length + 1) ++
-          ((s.nulls.map encNull).flatten ++ (be16 (cmdNumber s.soundCmd) ++ s.param1 ++ be32 (headerOffset s) ++ post))) := by
+    have h4 : getS .be 2 (encode s) (4 + 6 * dts.length) = .ok ((nulls.length + 1 : Nat) : Int) := by
+      have e : encode s = (be16 1 ++ be16 dts.length ++ dts.flatten) ++ (be16 (nulls.length + 1) ++
+          ((nulls.map encNull).flatten ++ (be16 (cmdNumber sc) ++ p1 ++ be32 (headerOffset s) ++ post))) := by
         rw [hd]; simp [List.append_assoc]
-      rw [e, getS_at .be 2 _ _ _ _ (by simp [be16, hfl]; omega) (by simp [be16])]
+      rw [e, getS_at .be 2 _ _ _ _ (by simp [be16, hfl]; try omega) (by simp [be16])]
       exact unpackS_small .be 2 _ (by decide) (by simpa using hnn)
     refine ⟨⟨1, l, -1, _⟩, cs, p1v, ?_, rfl, hall⟩
     simp only [parseSndFmt, h0, bind, Except.bind, parseSndFmt1, h2, parseSndCommands, Int.toNat_natCast, hdt, h4, if_true, hcs]
+
+/-! ### decoding an encoded resource -/
+
+theorem prefix_commands_length (s : Snd) (hv : Valid s) :
+    (encPrefix s.format ++ encCommands s).length = headerOffset s := by
+  simp [headerOffset, encCommands_length s hv.2.2.1 hv.2.2.2.1]; omega
+
+theorem dispatch_cmdNumber (b : Bool) : dispatch (cmdNumber b : Int) = some .frames := by
+  cases b <;> decide
+
+theorem dispatch_null : dispatch 0 = some .null := by decide
+
+theorem getFrames_encode (s : Snd) (hv : Valid s) :
+    getFrames St.init (headerOffset s : Int) (encode s) =
+      .ok (⟨(expected s).channels, (expected s).bits, (expected s).rate⟩, (expected s).samples) := by
+  have hpl := prefix_commands_length s hv
+  obtain ⟨_, _, _, _, hr, hfr, hlo, hh⟩ := hv
+  generalize hpre : encPrefix s.format ++ encCommands s = pre at hpl
+  rw [← hpl]
+  cases hhd : s.header with
+  | standard =>
+    rw [hhd] at hh
+    have hn : s.samples.length < 2 ^ 31 := hh
+    have hd : encode s = pre ++ ((be32 0 ++ be32 s.samples.length ++ be16 s.rateInt ++ s.rateFrac ++ s.loops ++ [0x00, 60])
+        ++ (s.samples ++ s.trailing)) := by
+      simp [encode, encSoundHeader, hhd, ← hpre, List.append_assoc]
+    have hc : St.init.channels ≠ 0 := by decide
+    have hH := soundHeader_standard St.init pre (s.samples ++ s.trailing) s.rateFrac s.loops s.samples.length s.rateInt hn hr hfr hlo hc
+    rw [← hd] at hH
+    have hd2 : encode s = (pre ++ (be32 0 ++ be32 s.samples.length ++ be16 s.rateInt ++ s.rateFrac ++ s.loops ++ [0x00, 60]))
+        ++ (s.samples ++ s.trailing) := by rw [hd]; simp [List.append_assoc]
+    have hb : ({ St.init with rate := (s.rateInt : Int) } : St).bits = 8 := by
+      show St.init.bits = 8
+      decide
+    have hA := sampleArea_8 { St.init with rate := (s.rateInt : Int) } hb
+      (pre ++ (be32 0 ++ be32 s.samples.length ++ be16 s.rateInt ++ s.rateFrac ++ s.loops ++ [0x00, 60])) s.samples s.trailing
+      ((pre.length : Int) + 22) (by simp [be32, be16, hfr, hlo]; try omega)
+    rw [← hd2] at hA
+    simp only [getFrames, hH, hA, bind, Except.bind]
+    simp [expected, Header.channels, Header.bits, hhd, St.init]
+    decide
+  | extended c f b aiff ptrs future =>
+    rw [hhd] at hh
+    obtain ⟨hc, hf, hb, ha, hp, hfu, hlen⟩ := hh
+    have hd : encode s = pre ++ ((be32 0 ++ be32 c ++ be16 s.rateInt ++ s.rateFrac ++ s.loops ++ [0xFF, 60] ++ be32 f ++ aiff ++ ptrs
+        ++ be16 b ++ future) ++ (s.samples ++ s.trailing)) := by
+      simp [encode, encSoundHeader, hhd, ← hpre, List.append_assoc]
+    have hH := soundHeader_extended St.init pre (s.samples ++ s.trailing) s.rateFrac s.loops aiff ptrs future c f b s.rateInt
+      hc hf (by omega) hr hfr hlo ha hp hfu
+    rw [← hd] at hH
+    have hd2 : encode s = (pre ++ (be32 0 ++ be32 c ++ be16 s.rateInt ++ s.rateFrac ++ s.loops ++ [0xFF, 60] ++ be32 f ++ aiff ++ ptrs
+        ++ be16 b ++ future)) ++ (s.samples ++ s.trailing) := by rw [hd]; simp [List.append_assoc]
+    have hidx : (pre.length : Int) + 64 = ((pre ++ (be32 0 ++ be32 c ++ be16 s.rateInt ++ s.rateFrac ++ s.loops ++ [0xFF, 60] ++ be32 f
+        ++ aiff ++ ptrs ++ be16 b ++ future)).length : Int) := by
+      simp [be32, be16, hfr, hlo, ha, hp, hfu]; try omega
+    rcases hb with hb | hb
+    · subst hb
+      have hl : s.samples.length = f * c := by simpa using hlen
+      have hA := sampleArea_8 (⟨(c : Int), ((8 : Nat) : Int), (s.rateInt : Int)⟩ : St) rfl _ s.samples s.trailing _ hidx
+      rw [← hd2, hl] at hA
+      have hmul : ((f * c : Nat) : Int) = (f : Int) * (c : Int) := by simp
+      rw [hmul] at hA
+      simp only [getFrames, hH, hA, bind, Except.bind]
+      simp [expected, Header.channels, Header.bits, hhd]
+    · subst hb
+      have hl : s.samples.length = 2 * (f * c) := by simp at hlen; omega
+      have hA := sampleArea_16 (⟨(c : Int), ((16 : Nat) : Int), (s.rateInt : Int)⟩ : St) rfl _ s.samples s.trailing (f * c) hl _ hidx
+      rw [← hd2] at hA
+      have hmul : ((f * c : Nat) : Int) = (f : Int) * (c : Int) := by simp
+      rw [hmul] at hA
+      simp only [getFrames, hH, hA, bind, Except.bind]
+      simp [expected, Header.channels, Header.bits, hhd]
+
+theorem decode_encode (s : Snd) (hv : Valid s) : sndToSampled (encode s) = .ok (expected s) := by
+  obtain ⟨f, cs, p1v, hparse, hcmds, hall⟩ := parse_encode s hv
+  have hG := getFrames_encode s hv
+  simp only [sndToSampled, hparse, bind, Except.bind, hcmds]
+  rw [runCmds_nulls _ _ cs hall dispatch_null]
+  simp only [runCmds, dispatch_cmdNumber, hG, bind, Except.bind, List.append_nil]
+
+/-! ### WAV -/
+
+theorem packLE_ok (k n : Nat) (h : n < 256 ^ k) : packLE k n = .ok (encOrd .le k n) := by
+  simp [packLE, h]
+
+theorem slice_pre (pre x post : Bytes) (i j : Nat) (hi : i = pre.length) (hj : j = pre.length + x.length) :
+    slice (pre ++ (x ++ post)) i j = x := slice_at' pre x post i j hi hj
+
+/-- reading the canonical file: 13 header blocks + data -/
+theorem wavRead_canonical (total br al : Bytes) (ch rate bits dlen : Nat) (d : Bytes)
+    (ht : total.length = 4) (hbr : br.length = 4) (hal : al.length = 2)
+    (hch : ch < 65536) (hrate : rate < 2 ^ 32) (hbits : bits < 65536) (hdlen : dlen < 2 ^ 32)
+    (hw0 : (bits + 7) / 8 ≠ 0) (hc0 : ch ≠ 0) :
+    wavRead (RIFF ++ total ++ WAVE ++ FMT_ ++ encOrd .le 4 16 ++ encOrd .le 2 1 ++ encOrd .le 2 ch ++ encOrd .le 4 rate ++ br ++ al
+        ++ encOrd .le 2 bits ++ DATA ++ encOrd .le 4 dlen ++ d)
+      = .ok (⟨ch, (bits + 7) / 8, rate⟩, slice d 0 (dlen / (ch * ((bits + 7) / 8)) * (ch * ((bits + 7) / 8)))) := by
+  generalize hw : RIFF ++ total ++ WAVE ++ FMT_ ++ encOrd .le 4 16 ++ encOrd .le 2 1 ++ encOrd .le 2 ch ++ encOrd .le 4 rate ++ br ++ al
+        ++ encOrd .le 2 bits ++ DATA ++ encOrd .le 4 dlen ++ d = w
+  have hR : RIFF.length = 4 := rfl
+  have hW : WAVE.length = 4 := rfl
+  have hF : FMT_.length = 4 := rfl
+  have hD : DATA.length = 4 := rfl
+  have s0 : slice w 0 4 = RIFF := by
+    have e : w = [] ++ (RIFF ++ (total ++ WAVE ++ FMT_ ++ encOrd .le 4 16 ++ encOrd .le 2 1 ++ encOrd .le 2 ch ++ encOrd .le 4 rate ++ br ++ al
+        ++ encOrd .le 2 bits ++ DATA ++ encOrd .le 4 dlen ++ d)) := by simp [← hw, List.append_assoc]
+    rw [e]; exact slice_pre _ _ _ _ _ rfl rfl
+  have s1 : getU .le 4 w 4 = .ok (ordNat .le total) := by
+    have e : w = RIFF ++ (total ++ (WAVE ++ FMT_ ++ encOrd .le 4 16 ++ encOrd .le 2 1 ++ encOrd .le 2 ch ++ encOrd .le 4 rate ++ br ++ al
+        ++ encOrd .le 2 bits ++ DATA ++ encOrd .le 4 dlen ++ d)) := by simp [← hw, List.append_assoc]
+    rw [e, getU_at .le 4 _ _ _ 4 rfl ht]; simp [unpackU, ht]
+  have s2 : slice w 8 12 = WAVE := by
+    have e : w = (RIFF ++ total) ++ (WAVE ++ (FMT_ ++ encOrd .le 4 16 ++ encOrd .le 2 1 ++ encOrd .le 2 ch ++ encOrd .le 4 rate ++ br ++ al
+        ++ encOrd .le 2 bits ++ DATA ++ encOrd .le 4 dlen ++ d)) := by simp [← hw, List.append_assoc]
+    rw [e]; exact slice_pre _ _ _ _ _ (by simp [hR, ht]) (by simp [hR, ht, hW])
+  have s3 : slice w 12 16 = FMT_ := by
+    have e : w = (RIFF ++ total ++ WAVE) ++ (FMT_ ++ (encOrd .le 4 16 ++ encOrd .le 2 1 ++ encOrd .le 2 ch ++ encOrd .le 4 rate ++ br ++ al
+        ++ encOrd .le 2 bits ++ DATA ++ encOrd .le 4 dlen ++ d)) := by simp [← hw, List.append_assoc]
+    rw [e]; exact slice_pre _ _ _ _ _ (by simp [hR, ht, hW]) (by simp [hR, ht, hW, hF])
+  have s4 : getU .le 4 w 16 = .ok 16 := by
+    have e : w = (RIFF ++ total ++ WAVE ++ FMT_) ++ (encOrd .le 4 16 ++ (encOrd .le 2 1 ++ encOrd .le 2 ch ++ encOrd .le 4 rate ++ br ++ al
+        ++ encOrd .le 2 bits ++ DATA ++ encOrd .le 4 dlen ++ d)) := by simp [← hw, List.append_assoc]
+    rw [e, getU_at .le 4 _ _ _ 16 (by simp [hR, ht, hW, hF]) (by simp)]; exact unpackU_encOrd .le 4 16 (by decide)
+  have s5 : getU .le 2 w 20 = .ok 1 := by
+    have e : w = (RIFF ++ total ++ WAVE ++ FMT_ ++ encOrd .le 4 16) ++ (encOrd .le 2 1 ++ (encOrd .le 2 ch ++ encOrd .le 4 rate ++ br ++ al
+        ++ encOrd .le 2 bits ++ DATA ++ encOrd .le 4 dlen ++ d)) := by simp [← hw, List.append_assoc]
+    rw [e, getU_at .le 2 _ _ _ 20 (by simp [hR, ht, hW, hF]) (by simp)]; exact unpackU_encOrd .le 2 1 (by decide)
+  have s6 : getU .le 2 w 22 = .ok ch := by
+    have e : w = (RIFF ++ total ++ WAVE ++ FMT_ ++ encOrd .le 4 16 ++ encOrd .le 2 1) ++ (encOrd .le 2 ch ++ (encOrd .le 4 rate ++ br ++ al
+        ++ encOrd .le 2 bits ++ DATA ++ encOrd .le 4 dlen ++ d)) := by simp [← hw, List.append_assoc]
+    rw [e, getU_at .le 2 _ _ _ 22 (by simp [hR, ht, hW, hF]) (by simp)]; exact unpackU_encOrd .le 2 ch hch
+  have s7 : getU .le 4 w 24 = .ok rate := by
+    have e : w = (RIFF ++ total ++ WAVE ++ FMT_ ++ encOrd .le 4 16 ++ encOrd .le 2 1 ++ encOrd .le 2 ch) ++ (encOrd .le 4 rate ++ (br ++ al
+        ++ encOrd .le 2 bits ++ DATA ++ encOrd .le 4 dlen ++ d)) := by simp [← hw, List.append_assoc]
+    rw [e, getU_at .le 4 _ _ _ 24 (by simp [hR, ht, hW, hF]) (by simp)]; exact unpackU_encOrd .le 4 rate hrate
+  have s8 : getU .le 4 w 28 = .ok (ordNat .le br) := by
+    have e : w = (RIFF ++ total ++ WAVE ++ FMT_ ++ encOrd .le 4 16 ++ encOrd .le 2 1 ++ encOrd .le 2 ch ++ encOrd .le 4 rate) ++ (br ++ (al
+        ++ encOrd .le 2 bits ++ DATA ++ encOrd .le 4 dlen ++ d)) := by simp [← hw, List.append_assoc]
+    rw [e, getU_at .le 4 _ _ _ 28 (by simp [hR, ht, hW, hF]) hbr]; simp [unpackU, hbr]
+  have s9 : getU .le 2 w 32 = .ok (ordNat .le al) := by
+    have e : w = (RIFF ++ total ++ WAVE ++ FMT_ ++ encOrd .le 4 16 ++ encOrd .le 2 1 ++ encOrd .le 2 ch ++ encOrd .le 4 rate ++ br) ++ (al
+        ++ (encOrd .le 2 bits ++ DATA ++ encOrd .le 4 dlen ++ d)) := by simp [← hw, List.append_assoc]
+    rw [e, getU_at .le 2 _ _ _ 32 (by simp [hR, ht, hW, hF, hbr]) hal]; simp [unpackU, hal]
+  have s10 : getU .le 2 w 34 = .ok bits := by
+    have e : w = (RIFF ++ total ++ WAVE ++ FMT_ ++ encOrd .le 4 16 ++ encOrd .le 2 1 ++ encOrd .le 2 ch ++ encOrd .le 4 rate ++ br ++ al)
+        ++ (encOrd .le 2 bits ++ (DATA ++ encOrd .le 4 dlen ++ d)) := by simp [← hw, List.append_assoc]
+    rw [e, getU_at .le 2 _ _ _ 34 (by simp [hR, ht, hW, hF, hbr, hal]) (by simp)]; exact unpackU_encOrd .le 2 bits hbits
+  have s11 : slice w 36 40 = DATA := by
+    have e : w = (RIFF ++ total ++ WAVE ++ FMT_ ++ encOrd .le 4 16 ++ encOrd .le 2 1 ++ encOrd .le 2 ch ++ encOrd .le 4 rate ++ br ++ al
+        ++ encOrd .le 2 bits) ++ (DATA ++ (encOrd .le 4 dlen ++ d)) := by simp [← hw, List.append_assoc]
+    rw [e]; exact slice_pre _ _ _ _ _ (by simp [hR, ht, hW, hF, hbr, hal]) (by simp [hR, ht, hW, hF, hbr, hal, hD])
+  have s12 : getU .le 4 w 40 = .ok dlen := by
+    have e : w = (RIFF ++ total ++ WAVE ++ FMT_ ++ encOrd .le 4 16 ++ encOrd .le 2 1 ++ encOrd .le 2 ch ++ encOrd .le 4 rate ++ br ++ al
+        ++ encOrd .le 2 bits ++ DATA) ++ (encOrd .le 4 dlen ++ d) := by simp [← hw, List.append_assoc]
+    rw [e, getU_at .le 4 _ _ _ 40 (by simp [hR, ht, hW, hF, hbr, hal, hD]) (by simp)]; exact unpackU_encOrd .le 4 dlen hdlen
+  have s13 : ∀ n, slice w 44 (44 + n) = slice d 0 n := by
+    intro n
+    have e : w = (RIFF ++ total ++ WAVE ++ FMT_ ++ encOrd .le 4 16 ++ encOrd .le 2 1 ++ encOrd .le 2 ch ++ encOrd .le 4 rate ++ br ++ al
+        ++ encOrd .le 2 bits ++ DATA ++ encOrd .le 4 dlen) ++ d := by simp [← hw, List.append_assoc]
+    have hl : (RIFF ++ total ++ WAVE ++ FMT_ ++ encOrd .le 4 16 ++ encOrd .le 2 1 ++ encOrd .le 2 ch ++ encOrd .le 4 rate ++ br ++ al
+        ++ encOrd .le 2 bits ++ DATA ++ encOrd .le 4 dlen).length = 44 := by simp [hR, ht, hW, hF, hbr, hal, hD]
+    rw [e]; unfold slice
+    rw [List.drop_append_of_le_length (by omega), List.drop_of_length_le (by omega)]
+    simp
+  simp only [wavRead, s0, s1, s2, s3, s4, s5, s6, s7, s8, s9, s10, s11, s12, s13, bind, Except.bind, ne_eq, not_true_eq_false, if_false,
+    hw0, hc0]
+
+/-- `wave` writes what `wave` reads: parameters and frames survive the file (rate ≥ 1, channels ≥ 1, whole frames) -/
+theorem wav_roundtrip (p : WavParams) (d : Bytes)
+    (hc : 1 ≤ p.channels) (hw : 1 ≤ p.width ∧ p.width ≤ 4) (hr : 1 ≤ p.rate ∧ p.rate < 2 ^ 32)
+    (hal : p.channels * p.width < 2 ^ 16) (hbr : p.channels * p.rate * p.width < 2 ^ 32) (hlen : 36 + d.length < 2 ^ 32)
+    (hfr : d.length % (p.channels * p.width) = 0) :
+    ∃ w, wavWrite p d = .ok w ∧ wavRead w = .ok (p, d) := by
+  obtain ⟨ch, width, rate⟩ := p
+  simp only at hc hw hr hal hbr hfr
+  have hch : ch < 65536 := by
+    have : ch * 1 ≤ ch * width := Nat.mul_le_mul_left _ hw.1
+    omega
+  have e1 : ¬ (ch < 1) := by omega
+  have e2 : ¬ (width < 1 ∨ width > 4) := by omega
+  have e3 : ¬ (rate < 1) := by omega
+  have hwidth : (width * 8 + 7) / 8 = width := by omega
+  have hwrite : wavWrite ⟨ch, width, rate⟩ d = .ok (RIFF ++ encOrd .le 4 (36 + d.length) ++ WAVE ++ FMT_ ++ encOrd .le 4 16 ++ encOrd .le 2 1
+      ++ encOrd .le 2 ch ++ encOrd .le 4 rate ++ encOrd .le 4 (ch * rate * width) ++ encOrd .le 2 (ch * width) ++ encOrd .le 2 (width * 8)
+      ++ DATA ++ encOrd .le 4 d.length ++ d) := by
+    simp only [wavWrite, e1, e2, e3, if_false, bind, Except.bind,
+      packLE_ok 4 (36 + d.length) (by omega), packLE_ok 2 ch (by omega), packLE_ok 4 rate (by omega),
+      packLE_ok 4 (ch * rate * width) (by omega), packLE_ok 2 (ch * width) (by omega), packLE_ok 2 (width * 8) (by omega),
+      packLE_ok 4 d.length (by omega)]
+  refine ⟨_, hwrite, ?_⟩
+  rw [wavRead_canonical _ _ _ ch rate (width * 8) d.length d (by simp) (by simp) (by simp) hch hr.2 (by omega) (by omega)
+    (by omega) (by omega)]
+  rw [hwidth, Nat.div_mul_cancel (Nat.dvd_of_mod_eq_zero hfr)]
+  simp [slice]
 
 end Drx.Snd
